@@ -48,8 +48,9 @@ def main():
     try:
         d = os.path.join(HERE, 'seeded', a.name)
         os.makedirs(d, exist_ok=True)
-        shutil.copy(a.patch, os.path.join(d, 'patch.diff'))
-        shutil.copy(a.demo, os.path.join(d, 'demo.py'))
+        for src, name in ((a.patch, 'patch.diff'), (a.demo, 'demo.py')):
+            if os.path.abspath(src) != os.path.join(d, name):
+                shutil.copy(src, os.path.join(d, name))
         a.demo = os.path.join(d, 'demo.py')
         rc0, out0 = sh(['timeout', '300', '/venv/bin/python', os.path.abspath(a.demo)], cwd=root, env=env)
         meta['demo_unchanged'] = {'rc': rc0, 'tail': out0.strip().splitlines()[-2:]}
@@ -91,6 +92,11 @@ def main():
             for k in ('needs_to_manifest', 'what_it_breaks'):
                 if not meta[k]:
                     meta[k] = old.get(k, '')
+            for k in ('test_suite_with_change', 'source'):
+                if k not in meta and k in old:
+                    meta[k] = old[k]
+            if a.skip_tests and old.get('ran'):
+                meta['ran'] = old['ran']
         json.dump(meta, open(mp, 'w'), indent=1)
         return 0
     finally:
